@@ -288,7 +288,12 @@ fn convert_js_path(path: &str) -> Parsed<String> {
     for segment in segments {
         match segment {
             Segment::Selector(Selector::Name(name)) => {
-                path.push_str(&format!("/{}", name.trim_matches(|c| c == '\'')));
+                path.push_str(&format!(
+                    "/{}",
+                    name.trim_matches(|c| c == '\'')
+                        .replace('~', "~0")
+                        .replace('/', "~1")
+                ));
             }
             Segment::Selector(Selector::Index(index)) => {
                 path.push_str(&format!("/{}", index));
